@@ -24,11 +24,16 @@ mod split {
 
 #[dispatch]
 mod split_at {
-    use crate::CelValue;
+    use crate::{CelError, CelResult, CelValue};
 
-    fn split_at(this: String, at: i64) -> Vec<CelValue> {
-        let (left, right) = this.split_at(at as usize);
+    fn split_at(this: String, at: i64) -> CelResult<Vec<CelValue>> {
+        let at = usize::try_from(at)
+            .ok()
+            .filter(|at| this.is_char_boundary(*at))
+            .ok_or_else(|| CelError::value("splitAt() offset out of range"))?;
 
-        vec![left.into(), right.into()].into()
+        let (left, right) = this.split_at(at);
+
+        Ok(vec![left.into(), right.into()])
     }
 }
